@@ -13,6 +13,7 @@ for d in sorted(glob.glob(os.path.join(V, 'seeded', 'C??-*'))):
     rows.append(f"| {os.path.basename(d)} | {m['property']} | {what} — *needs:* {need} | {caught} | {esc(det.get('first_violation', ''))[:160]} |")
 p = os.path.join(V, 'DESIGN.md')
 s = open(p).read()
-s = re.sub(r'<!-- SEED-TABLE-BEGIN -->.*<!-- SEED-TABLE-END -->', '<!-- SEED-TABLE-BEGIN -->\n' + '\n'.join(rows) + '\n<!-- SEED-TABLE-END -->', s, flags=re.S)
+a, b = s.index('<!-- SEED-TABLE-BEGIN -->'), s.index('<!-- SEED-TABLE-END -->')
+s = s[:a] + '<!-- SEED-TABLE-BEGIN -->\n' + '\n'.join(rows) + '\n' + s[b:]
 open(p, 'w').write(s)
 print(len(rows) - 2, 'seeds')
